@@ -826,8 +826,7 @@ Definition mesh_coord (counts : list Z) (d : nat) (k : Z) : Z :=
 Definition apply_axis (x : ext) (s : sys) (st : bstate) (step : nat) (cells : nat)
     (vals : list Q) (a : axis) : res bstate :=
   let* ktext := match a_period a with Some t => Ok t | None => Err EUnmodelled end in
-  let* p0 := parse_key (tok x ktext) in
-  let* p := canon p0 in
+  let* p := canon_key (tok x ktext) in
   match find_var (a_name a) (s_vars s) with
   | None => Err EOther
   | Some v =>
